@@ -81,7 +81,7 @@ P = {
          "Mp4Writer::write_end's postcondition (mw_final) names the finished file: pending chunks flushed in track order, mdat size patched, moov = byte-exact encoding of the finished tracks. "
          "lemma_trak_roundtrip / lemma_moov_roundtrip / lemma_file_roundtrip prove at specification level that the reader's relations hold on those bytes for the same (normalised) values. "
          "lemma_moov_muxed_of_final supplies the hypothesis of lemma_muxed_file from mw_final and the per-track invariant tw_static_muxed (AVC / AAC sample description as built by Mp4TrackWriter::new, canonical three-letter language code), so for such tracks the finished file satisfies the reader's file relation for the muxer's own configuration. "
-         "Level 'other': the outermost induction over the call history is the usual invariant argument, not a Verus theorem; for HEVC / VP9 / subtitle tracks the entry round trips are proved too (lemma_hev1/vp09/tx3g_roundtrip), but that Mp4TrackWriter::new builds exactly those shapes is a postcondition for AVC and AAC only."),
+         "Level 'other': the outermost induction over the call history is the usual invariant argument, not a Verus theorem; for HEVC / VP9 / subtitle tracks the entry round trips are proved too (lemma_hev1/vp09/tx3g_roundtrip), and Mp4TrackWriter::new is proved to build exactly those shapes."),
    note=TRUST),
  'C15': dict(claim=True, cat='proof', technique='Verus frame conditions + postconditions that are functions of (tables, stream data, arguments)',
    text="Reader calls leave tracks/moov/ftyp/size and the stream content unchanged (&mut self frame proved) and their results are specified purely in terms of the tables, the stream data and the arguments (never the stream position), with uniqueness lemmas, so any call history returns what a fresh reader returns. Muxer: every step's result is a function of the previous abstract state and the arguments (C01).",
